@@ -557,6 +557,49 @@ def r10_22(run, model):
     run.floor("literal nodes built in ast::lower", len(sites), 12)
 
 
+def r10_24(run, model):
+    run.rule("R10.24", "the typed program holds the literals that were written: in typer/check.rs and typer/tast_builder.rs every construction of "
+                       "a `tast::Expr::EPrim` (other than the unit value, or an EPrim arm putting its own value back) sits in the arm that reads "
+                       "the literal HIR node (`hir::Expr::EInt8 { value }` ..), directly or in a helper only that arm calls - the checker and the "
+                       "builder are two readers of one literal, and neither computes a literal of its own (no sign folded in one of them)")
+    LITARM = re.compile(r"hir::Expr::E(U?Int(8|16|32|64)?|Float(32|64)?|Bool|String|Unit|MultilineString)\b")
+    n = 0
+    for rel in ("crates/compiler/src/typer/check.rs", "crates/compiler/src/typer/tast_builder.rs"):
+        own = {}
+        for f in model.fns(rel):
+            if f.body is None:
+                continue
+            for st in S.find(f.body, "Struct"):
+                if st["segs"][-1] == "EPrim" and "Expr" in st["segs"]:
+                    own[tuple(st["sp"])] = [f, st, None]
+        for f in model.fns(rel):
+            if f.body is None:
+                continue
+            g = model.inlined_fn(f)
+            par = S.Parents(g.body)
+            for st in S.find(g.body, "Struct"):
+                key = tuple(getattr(st["sp"], "orig", None) or st["sp"])
+                if key not in own or own[key][2] is True:
+                    continue
+                val = next((fl["expr"] for fl in st.get("fields", []) if fl.get("name") == "value"), None)
+                vtxt = S.norm_ws(run.facts.text(rel, val["sp"])) if val is not None else ""
+                ok = "Prim::unit()" in vtxt.replace(" ", "")
+                for a in par.ancestors(st):
+                    if a["k"] == "Arm":
+                        ptxt = S.norm_ws(run.facts.text(rel, a["pat"]["sp"]))
+                        if LITARM.search(ptxt) or re.search(r"tast::Expr::EPrim\b", ptxt):
+                            ok = True
+                            break
+                own[key][2] = ok if own[key][2] is None else (own[key][2] or ok)
+        for key, (f, st, ok) in sorted(own.items()):
+            n += 1
+            run.ob("R10.24", f"{f.name}|EPrim is built from its literal", bool(ok), site(rel, st["sp"]),
+                   "inside the arm for the literal HIR node (or the unit value)" if ok else "built outside the arm that reads the literal: a computed literal",
+                   witness="`-128i8` accepted by a checker that folds the sign into the literal while the TAST builder still parses `128` as int8, "
+                           "falls back to 0 and negates it: `var a int8 = -0`, no diagnostic")
+    run.floor("EPrim constructions in the checker and the TAST builder", n, 30)
+
+
 def _cast_keeps(src, tgt):
     """a value of the width tag `src` (i8..u64, f32, f64) survives `as tgt`; None when tgt is no primitive number type"""
     sk, sb = src[0], int(src[1:])
@@ -782,6 +825,7 @@ def run(run, model):
     run.try_rule(r10_14, model)
     run.try_rule(r10_21, model)
     run.try_rule(r10_22, model)
+    run.try_rule(r10_24, model)
     run.try_rule(r10_23, model)
     run.try_rule(r10_6, model)
     run.try_rule(r10_7, model)
